@@ -331,6 +331,7 @@ func runC06(c *Ctx) {
 		}
 		c.Count(kind+doc.Text(), strings.Contains(doc.Text(), "{"))
 		c.Hit("decoded:" + kind)
+		corrNorm(c, kind, doc) // the model whose output is proved collision-free must produce these very bytes
 		checkEncoding(c, x, goKinds[kind], map[string]interface{}{"kind": kind, "doc": json.RawMessage(doc.Text()), "how": "decoded"}, reps)
 		if len(c.Res.Samples) < 3 && doc.Size() > 15 {
 			c.Sample(map[string]interface{}{"kind": kind, "doc": json.RawMessage(doc.Text())})
